@@ -640,6 +640,14 @@ def dropout_pool(which):
       key = jax.random.key(0)
       cases.append(('Dropout deterministic', nn.Dropout(0.5, deterministic=True)
                     .apply({}, x), x))
+      cases.append(('Dropout rate 1 deterministic', nn.Dropout(
+          1.0, deterministic=True).apply({}, x), x))
+      cases.append(('Dropout rate 1 deterministic at call', nn.Dropout(1.0).apply(
+          {}, x, deterministic=True), x))
+      nd = nnx.Dropout(1.0, deterministic=True, rngs=nnx.Rngs(0))
+      cases.append(('nnx.Dropout rate 1 deterministic', nd(R(x)), x))
+      nd0 = nnx.Dropout(0.0, deterministic=False, rngs=nnx.Rngs(0))
+      cases.append(('nnx.Dropout rate 0', nd0(R(x)), x))
       cases.append(('Dropout rate 0', nn.Dropout(0.0, deterministic=False).apply(
           {}, x, rngs={'dropout': key}), x))
       cases.append(('Dropout rate 1', nn.Dropout(1.0, deterministic=False).apply(
